@@ -958,9 +958,24 @@ class C04(Property):
         save of the same saver object with rm_part_on_exc=False"""
         return 1 if (case['part'] or (case.get('reuse') == 2 and not case['rm'])) else 0
 
-    @staticmethod
-    def pname(case):
-        return case.get('pname') or PART
+    _default_part = None
+
+    def pname(self, case):
+        """the name of the part file of this case: the explicit part_file, else what the CURRENT source chooses for
+        the destination's name (evaluated on a probe directory; the statement does not fix the name)"""
+        if case.get('pname'):
+            return case['pname']
+        if C04._default_part is None:
+            name = PART
+            try:
+                import boltons.fileutils as fu
+                sv = fu.AtomicSaver(os.path.join('/bv-probe-dir', DEST))
+                if os.path.dirname(os.fspath(sv.part_path)) == '/bv-probe-dir':
+                    name = os.path.basename(os.fspath(sv.part_path))
+            except Exception:
+                pass
+            C04._default_part = name
+        return C04._default_part
 
     def prepare(self, case):
         d = tempfile.mkdtemp(prefix='bvC04-')
